@@ -418,7 +418,7 @@ def gen_pf(rng):
             cmds.insert(rng.randint(0, len(cmds)), "my_command")
     pf["commands"] = cmds
     pf["type"] = "physical" if rng.random() < 0.2 else "simulator"
-    if rng.random() < 0.12:
+    if rng.random() < 0.2:
         pf["threshold_only"] = True
     return pf
 
@@ -626,9 +626,9 @@ def gen_ops(rng, tr, n_ops):
                 heralds.append(k)
                 st["m"] -= 1
                 return {"op": "add_herald", "mode": k, "expected": rng.randint(0, 1)}
-        if 0.87 <= r < 0.91:
+        if 0.87 <= r < 0.915:
             return params_op()
-        if 0.91 <= r < 0.94 and tr["remote_built"] and st["size"] >= 1:
+        if 0.915 <= r < 0.95 and tr["remote_built"] and st["size"] >= 1:
             return port_op()
         return prepare_op()
 
@@ -646,17 +646,17 @@ def gen_ops(rng, tr, n_ops):
         size = st["size"]
         heralds = st["heralds"] if tr["remote_built"] else list(range(st["m"], size))   # conversion moves them last
         st["nsym"] += 1
-        if r < 0.45 and tr["sym"]:
+        if r < 0.38 and tr["sym"]:
             return {"op": "retune", "name": rng.choice(tr["sym"]), "v": rng.choice(RETUNE_VALUES),
                     "own": rng.random() < 0.5}
-        if r < 0.8:
+        if r < 0.62:
             m = size if rng.random() < 0.93 else max(1, size + rng.choice([-1, 1]))
             spec = gen_circ(rng, m, prefix=f"s{st['nsym']}q", p_sym=0.5)
             if m == size:
                 tr["sym"] = sym_names(spec)
             return {"op": "set_circuit", "via": rng.choice(["rp", "exp"]), "circ": spec}
         free = [k for k in range(size) if k not in heralds]
-        if r < 0.9 or not free:
+        if r < 0.74 or not free:
             w = rng.choice([1, 2, 2])
             cand = [k for k in range(size - w + 1) if all(j not in heralds for j in range(k, k + w))]
             if not cand:
@@ -671,7 +671,7 @@ def gen_ops(rng, tr, n_ops):
         # a list / dict mapping (processor mode -> component input), possibly through an output port name
         ports = st.get("ports", [])
         form = rng.random()
-        if form >= 0.8 and ports:
+        if form >= 0.5 and ports:
             name, start, psize = rng.choice(ports)
             w = psize
             vals = list(range(psize))
@@ -689,6 +689,11 @@ def gen_ops(rng, tr, n_ops):
         else:
             w = min(rng.choice([1, 2, 2, 3]), len(free))
             keys = rng.sample(free, w)
+            around = [(a, b) for h in heralds for a in free if a < h for b in free if b > h]
+            if around and rng.random() < 0.6:
+                a, b = rng.choice(around)             # the span of the PERM contains a herald mode
+                keys = rng.choice([[a, b], [b, a]])
+                w = 2
             flaw = rng.random()
             if flaw < 0.07 and heralds:
                 keys[rng.randrange(w)] = rng.choice(heralds)
@@ -737,11 +742,12 @@ def gen_ops(rng, tr, n_ops):
             stale_all()
             d = [[rng.choice(["thresholded", "foo", "mitigation", "bar", "min_detected_photons"]),
                   rng.choice([None, 0, 1, 7, "on", True, False])] for _ in range(rng.randint(1, 3))]
-            if rng.random() < 0.2:
+            if rng.random() < 0.35:
                 d.insert(rng.randint(0, len(d)), [None, 1])        # a key that is not a string
             return {"op": "set_params", "d": d}
         stale_all()
-        return {"op": "thresholded", "v": rng.random() < 0.6}
+        # `False` is refused by a platform that can only do threshold detection
+        return {"op": "thresholded", "v": rng.random() < (0.3 if tr.get("pf", {}).get("threshold_only") else 0.6)}
 
     def clear_ops():
         """`clear_input_and_circuit(new_m)`, then the user builds another circuit on the same processor (same
@@ -1011,8 +1017,10 @@ def gen_ops(rng, tr, n_ops):
     if tr["remote_built"] and rng.random() < 0.8:
         st["filt"] = True
         ops.append({"op": "filter", "n": rng.choice([0, 0, 1, 2, 3])})
+    if tr["remote_built"] and st["size"] >= 2 and rng.random() < 0.3:
+        ops.append(port_op())
     for _ in range(n_cfg):
-        ops.append(config_op() if rng.random() < 0.9 else circuit_op())
+        ops.append(config_op() if rng.random() < 0.88 else circuit_op())
     if rng.random() < 0.08:
         ops.extend(clear_ops())
     if tr["remote_built"] and st["m"] > 1 and rng.random() < 0.12:
@@ -1276,6 +1284,10 @@ class Session:
             ctx.add("retuned")
         if it["heralds"]:
             ctx.add("remote-heralds")
+        if any(route_matrix(mp, max(mp) + 1)[2] for mp, _ in cs.get("extra", [])):
+            ctx.add("after-mapped-add-perm")
+        if cs.get("base", ("",))[0] == "empty" or "base_m" in it:
+            ctx.add("after-clear")
         self.mat_ctx[len(self.lean_ops)] = ctx
 
     # -- start -----------------------------------------------------------------------------------
@@ -1540,6 +1552,10 @@ class Session:
         rp = self.rp
         k = op["op"]
         it = self.intent
+        if rp.circuit_size == 0 and (k in ("with_input", "add_herald", "sampler", "add_iters", "clear_iters", "job",
+                                           "add_port", "retune") or (k == "prepare" and op["circuitless"])
+                                     or (k == "add_mapped" and "dict" in op["map"])):
+            return False           # a processor of 0 modes (after clear_input_and_circuit()): outside the model
         if k in ("filter", "param", "clear_params", "add_iters", "clear_iters"):
             # the calls that change processor._parameters or the sampler's iterator list: a job created before and
             # executed after one of them must still send the request it had when it was created
@@ -1652,6 +1668,12 @@ class Session:
                 spec = op["circ"]
                 w = spec["m"]
                 mp = {"offset": op["k"]} if k == "add_comp" else op["map"]
+                if "dict" in mp:
+                    # a Python dict literal: a repeated key keeps its first position and its last value
+                    dd = {}
+                    for a2, b2 in mp["dict"]:
+                        dd[a2] = b2
+                    mp = {"dict": [[a2, b2] for a2, b2 in dd.items()]}
                 circ = build_circuit(spec, keep=keep)
                 # what the mapping means (documentation of `add`), from the user's own values
                 mapping = user_mapping(mp, w, self.ports)
@@ -2058,7 +2080,8 @@ class Session:
         it = self.intent
         if it["converted"]:
             return self.local.m, sum(it["local_heralds"].values())
-        return it.get("base_m", self.scen["start"]["m"]) - len(it["heralds"]), sum(it["heralds"].values())
+        base_m = it["base_m"] if "base_m" in it else self.scen["start"]["m"]
+        return base_m - len(it["heralds"]), sum(it["heralds"].values())
 
     def user_param_names(self):
         """names of the variable parameters of the user's circuit (from the scenario's specs)"""
@@ -2066,7 +2089,9 @@ class Session:
         if cs is None:
             return set()
         kind, spec = cs["base"]
-        if kind == "remote":
+        if kind == "empty":
+            names = set()
+        elif kind == "remote":
             names = set(sym_names(spec))
         else:
             names = set(sym_names(spec["circ"])) if spec.get("base") == "circuit" else set()
@@ -2160,6 +2185,7 @@ class Session:
         it["heralds"] = dict(it["heralds"])
         inp = self.rp.input_state
         it["rp_input"] = None if inp is None else [int(x) for x in inp]
+        it["size"] = self.rp.circuit_size
         return it
 
     def check_payload(self, pl, cmd, kw_keys, circuitless, inputless, jobrec):
@@ -2259,7 +2285,7 @@ class Session:
             if not isinstance(ps, PostSelect):
                 self.fail("payload-postselect", f"post-selection configured {obj}, sent {ps!r}")
             else:
-                n = rp.circuit_size
+                n = it["size"]
                 p2 = perm if (space == "local" and perm is not None) else []
                 if space == "local" and perm is None and it["local_heralds"]:
                     pass  # circuit absent or already reported: relabelling unknown
@@ -2301,7 +2327,7 @@ class Session:
                 self.fail("payload-iterator", f"no iteration configured, sent {got!r}")
         # constraints
         pf = self.scen["pf"]
-        n = rp.circuit_size
+        n = it["size"]
         if not circuitless:
             if (pf["max_modes"] is not None and n > pf["max_modes"]) or (pf["min_modes"] is not None and n < pf["min_modes"]):
                 self.fail("constraints-modes", f"payload produced for {n} modes, constraints {pf}")
@@ -2393,7 +2419,8 @@ def match_value(ses: Session, real, mv, model_iter=None):
             return False
     if "post" in mv:
         p = mv["post"]
-        return isinstance(real, PostSelect) and post_equiv(real, ses.posts[p["id"]], p["perm"], ses.rp.circuit_size)
+        return isinstance(real, PostSelect) and post_equiv(real, ses.posts[p["id"]], p["perm"],
+                                                           getattr(ses, "cur_size", None) or ses.rp.circuit_size)
     if "noise" in mv:
         return isinstance(real, NoiseModel) and real == ses.noises[mv["noise"]]
     if "params" in mv:
@@ -2438,6 +2465,10 @@ def diff_payload(ses, real_pl, model_pairs, model_iter=None):
     """Keys on which the real payload and the model's record differ."""
     bad = []
     model = {k: v for k, v in model_pairs}
+    # the size of the processor when this payload was made (the session's processor may have been cleared since)
+    c = real_pl.get("circuit")
+    ses.cur_size = c.m if hasattr(c, "m") and not isinstance(c, (str, int)) else next(
+        (v["circ"]["size"] for v in model.values() if isinstance(v, dict) and "circ" in v), None)
     for k in sorted(set(real_pl) | set(model)):
         if k not in real_pl or k not in model:
             bad.append(k)
@@ -2875,7 +2906,17 @@ def run(chk: core.Check):
                              "handler-injected", "handler-built-by-processor", "handler-timeout-set",
                              "http:get", "http:post", "http:get-quoted-name", "http:double-slash",
                              "post-checked", "post-body-compared", "posted-compared", "posted-compared:not-taken",
-                             "transport-exception-reaches-user"] + ["net:" + k for k in NET_FAILURES]
+                             "transport-exception-reaches-user"] + ["net:" + k for k in NET_FAILURES] + [
+                             # add with list / dict / port-name mappings, on herald modes, next to a post-selection;
+                             # clear_input_and_circuit; set_parameters / thresholded_output
+                             "mapped-add", "mapped-add-perm", "mapped-add:list", "mapped-add:dict",
+                             "mapped-add:dict:port", "mapped-add-spans-herald", "add-next-to-postselection",
+                             "add-refused-by-postselection", "add-refused:UnavailableModeException",
+                             "add-refused:InvalidMappingException", "add-refused:AssertionError", "port-added",
+                             "add-mapped-between-payloads", "matrix:after-mapped-add-perm", "matrix:after-clear",
+                             "cleared", "cleared:no-modes", "cleared-then-add", "cleared-then-set-circuit",
+                             "clear-refused-size", "clear-between-payloads", "set-parameters",
+                             "set-parameters-refused", "thresholded-set", "thresholded-refused"]
     chk.lean = core.LeanDriver("C16")
     for scen in load_corpus():
         handle(chk, scen, corpus=True)
